@@ -75,7 +75,7 @@ pub const FLOAT_SPECIAL: &[f64] = &[
 pub const TEXT_SPECIAL: &[&str] = &[
     "", "a", "b", "ab", "abc", "A", "Z", "z", "0", "1", "10", "-1", "1.5", "true", "false", " ",
     "  x ", "é", "ß", "'", "\"", "a'b", "a\"b", "\\", "%", "_", "NULL", "hello world", "Hello",
-    "2020-01-01", "12:30:00", "1e3", "\u{10FFFF}", "\u{0}", "zzzz",
+    "2020-01-01", "12:30:00", "1e3", "zzzz",
 ];
 
 pub fn int_any(r: &mut Rng) -> i64 {
@@ -461,6 +461,13 @@ pub fn text_between(r: &mut Rng, a: &str, b: &str) -> String {
     s
 }
 
+/// Values of temporal types are kept within years 1..=9999 (the common domain of SQL engines)
+pub fn clamp_date(d: NaiveDate) -> NaiveDate {
+    let lo = NaiveDate::from_ymd_opt(1, 1, 1).unwrap();
+    let hi = NaiveDate::from_ymd_opt(9999, 12, 31).unwrap();
+    d.clamp(lo, hi)
+}
+
 /// Element type to draw the elements of one collection from: collections are homogeneous
 /// (a list mixing integers and booleans cannot come out of SQL), so `any` is narrowed once.
 fn element_type(r: &mut Rng, t: &DataType) -> DataType {
@@ -582,18 +589,32 @@ pub fn gen_value_in(r: &mut Rng, t: &DataType) -> Option<Value> {
                 .collect::<Option<Vec<_>>>()?;
             Value::Array(value::Array::from((vs, a.shape().to_vec())))
         }
-        DataType::Date(d) => Value::date(pick_in(r, d, &mut |r, a, b| {
-            let n = b.signed_duration_since(*a).num_days();
-            *a + Duration::days(r.range(0, n))
-        })?),
+        DataType::Date(d) => {
+            let v = pick_in(r, d, &mut |r, a, b| {
+                let n = b.signed_duration_since(*a).num_days();
+                *a + Duration::days(r.range(0, n))
+            })?;
+            let v = clamp_date(v);
+            if !d.iter().any(|[a, b]| a <= &v && &v <= b) {
+                return None;
+            }
+            Value::date(v)
+        }
         DataType::Time(t) => Value::time(pick_in(r, t, &mut |r, a, b| {
             let n = b.signed_duration_since(*a).num_seconds();
             *a + Duration::seconds(r.range(0, n))
         })?),
-        DataType::DateTime(d) => Value::date_time(pick_in(r, d, &mut |r, a, b| {
-            let n = b.signed_duration_since(*a).num_seconds();
-            a.checked_add_signed(Duration::seconds(r.range(0, n))).unwrap_or(*a)
-        })?),
+        DataType::DateTime(d) => {
+            let v = pick_in(r, d, &mut |r, a, b| {
+                let n = b.signed_duration_since(*a).num_seconds();
+                a.checked_add_signed(Duration::seconds(r.range(0, n))).unwrap_or(*a)
+            })?;
+            let v = clamp_date(v.date()).and_time(v.time());
+            if !d.iter().any(|[a, b]| a <= &v && &v <= b) {
+                return None;
+            }
+            Value::date_time(v)
+        }
         DataType::Duration(d) => Value::duration(pick_in(r, d, &mut |r, a, b| {
             let n = b.checked_sub(a).map(|d| d.num_seconds()).unwrap_or(0);
             a.checked_add(&Duration::seconds(r.range(0, n))).unwrap_or(*a)
